@@ -467,6 +467,8 @@ def run(ctx):
     shared by all requests.  A handler method that stores into them -- directly or through a container it fetched from them
     -- makes the answer to a later request depend on an earlier one (e.g. notebooks cached from the first read of a file
     that has since changed).  One named exemption: the cached constant merge arguments."""
+    ctx.rule('R20.12', 'name binding: every global name a function refers to is bound at module level or builtin, and every local is assigned on every path before it is read', floor=4)
+    ctx.rule('R20.11', 'every exactly resolved call binds against its callee\'s signature (no missing/unknown/surplus argument on any arm)', floor=2)
     ctx.rule('R20.10', 'a file that is not JSON is treated as an empty notebook only if it is empty: the re-raise is guarded by a pure emptiness test of what was read', floor=1)
     ctx.rule('R20.9', 'handler methods store nothing in state shared between requests (application settings, start-up params), except the constant merge arguments', floor=8)
     _run_base(ctx)
@@ -548,3 +550,7 @@ def run(ctx):
                      'only a file with no content at all falls back to an empty notebook' if ok else
                      'the test transforms what was read before deciding: files that are not empty (e.g. whitespace followed by garbage) are answered with 200 '
                      'and an empty notebook instead of an error status', x)
+    from ..signatures import call_compat
+    call_compat(ctx, 'R20.11', ['nbdime.webapp.'], 'the request is answered with 500 although it is valid')
+    from ..names import name_binding
+    name_binding(ctx, 'R20.12', ['nbdime.webapp.'])
